@@ -148,7 +148,12 @@ def run_one(ck, prog):
         ds = T.call_blocks(c, dealloc)
         fg = T.call_blocks(c, "core::mem::forget")
         ok = len(ds) == 1 and len(fg) == 1 and c.cfg.dominates(ds[0], fg[0]) and all(c.cfg.dominates(fg[0], rb) for rb in c.cfg.return_blocks())
-        ck.ob("C06.1", "join-forgets-self-after-free", ok, fn=T.JOIN, detail="join frees the block itself and must then mem::forget(self) on every path, otherwise the handle's Drop frees it again")
+        if not ok and len(ds) == 1 and not fg:
+            # disarmed up front instead: `ManuallyDrop::new(self)` before anything else can return
+            md = [bb for bb, t in c.cfg.calls(lambda t: (t.get("callee") or "").endswith("ManuallyDrop::<T>::new")) if isinstance(strip_casts(c.args(bb)[0]), tuple) and strip_casts(c.args(bb)[0])[0] == "param" and strip_casts(c.args(bb)[0])[1] == 1]
+            # ... and then nothing else frees the block: the dealloc must lie on every way out
+            ok = len(md) == 1 and c.cfg.dominates(md[0], ds[0]) and all(c.cfg.dominates(md[0], rb) and c.cfg.dominates(ds[0], rb) for rb in c.cfg.return_blocks())
+        ck.ob("C06.1", "join-forgets-self-after-free", ok, fn=T.JOIN, detail="join frees the block itself exactly once on every path and keeps the handle's Drop from running (mem::forget(self) after the free, or ManuallyDrop::new(self) up front with the free on every way out)")
         drops_self = [b for b in c.cfg.live_blocks() if c.cfg.term(b)["k"] == "drop" and "JoinHandle" in c.cfg.term(b).get("ty", "")]
         ck.ob("C06.1", "join-never-drops-handle", not drops_self, fn=T.JOIN, detail="a path in join drops the JoinHandle (running Drop) after freeing the block")
     s = prog.fns.get(T.SPAWN)
